@@ -1,4 +1,5 @@
 /* fiber-regime driver extension: fiber_sleep / usleep shim with virtual timer ticks (property C09) */
+#include <stdint.h>
 #include <stdlib.h>
 #include <string.h>
 #include <unistd.h>
@@ -29,7 +30,22 @@ static int s_obj(const char* kind, const char* name, long arg, void** obj) {
   return 1;
 }
 static int s_op(const char* f, const char* op, const char* a1, const char* a2) {
-  (void)a2;
+  if (!strcmp(op, "sleepsu")) {
+    /* fiber_sleep(seconds, useconds) with arbitrary arguments (input space of the duration conversion) */
+    unsigned long sec = strtoul(a1, NULL, 10), us = strtoul(a2, NULL, 10);
+    vrt_api("\"f\":\"%s\",\"ph\":\"call\",\"op\":\"sleepsu\",\"s\":%lu,\"u\":%lu", f, sec, us);
+    fiber_sleep((uint32_t)sec, (uint32_t)us);
+    vrt_api("\"f\":\"%s\",\"ph\":\"ret\",\"op\":\"sleepsu\",\"s\":%lu,\"u\":%lu", f, sec, us);
+    return 1;
+  }
+  if (!strcmp(op, "advance_s")) {
+    /* virtual time jumps: <n> seconds' worth of ticks (n*1000 + 2) expire at once */
+    unsigned long sec = strtoul(a1, NULL, 10);
+    vrt_api("\"f\":\"%s\",\"ph\":\"call\",\"op\":\"advance_s\",\"n\":%lu", f, sec);
+    vrt_tick64((uint64_t)sec * 1000u + 2u);
+    vrt_api("\"f\":\"%s\",\"ph\":\"ret\",\"op\":\"advance_s\",\"n\":%lu", f, sec);
+    return 1;
+  }
   if (strcmp(op, "sleep")) return 0;
   long ms = strtol(a1, NULL, 10);
   vrt_api("\"f\":\"%s\",\"ph\":\"call\",\"op\":\"sleep\",\"n\":%ld", f, ms);
